@@ -2,6 +2,7 @@ package main
 
 import (
 	"fmt"
+	"go/ast"
 	"go/token"
 	"go/types"
 	"sort"
@@ -64,6 +65,9 @@ func runGenEngines(c *Check, o genOpts) map[*ssa.Function]bool {
 	nMemo := memoKeys(c, "MEMO-KEY", in)
 	c.Counts["memo_tables"] = nMemo
 	c.Okf("MEMO-KEY", "scan", "-", "%d reachable repository functions scanned for look-up-or-compute tables: %d found and evaluated", len(in), nMemo)
+	nDead := deadErrors(c, "DEAD-ERROR", in)
+	c.Counts["dead_error_assignments"] = nDead
+	c.Okf("DEAD-ERROR", "scan", "-", "%d reachable repository functions scanned for error results bound to a variable that is never read: %d found", len(in), nDead)
 	if o.order {
 		e := newOrderEngine(p)
 		runOrder(c, "MAP-ORDER", e, func(f *ssa.Function) bool { return in[f] })
@@ -696,4 +700,145 @@ func paramDeps(v ssa.Value) map[*ssa.Parameter]bool {
 	}
 	rec(v, 0)
 	return out
+}
+
+// deadErrors (DEAD-ERROR): the error result of a call is bound to a named
+// variable (the left-hand side is looked up in the syntax tree: the blank
+// identifier is a deliberate discard) and is never read: it is overwritten by a later assignment, or the function ends,
+// before any test. The cell form — the variable is captured or address-taken, so
+// the error is stored into an Alloc — is matched when a path leads from the
+// store to another store into the same cell (or to a return) with no load of
+// the cell and no call that could read it in between.
+func deadErrors(c *Check, rule string, fns map[*ssa.Function]bool) int {
+	p := c.P
+	var list []*ssa.Function
+	for f := range fns {
+		list = append(list, f)
+	}
+	sort.Slice(list, func(i, j int) bool { return fnName(list[i]) < fnName(list[j]) })
+	n := 0
+	for _, f := range list {
+		if p.isGeneratedFile(p.fnFile(f)) {
+			continue
+		}
+		eachInstr(f, func(_ *ssa.BasicBlock, i ssa.Instruction) {
+			ex, ok := i.(*ssa.Extract)
+			if !ok || !isErrorType(ex.Type()) {
+				return
+			}
+			call, ok := ex.Tuple.(*ssa.Call)
+			if !ok {
+				return
+			}
+			callee := "dynamic callee"
+			if o := calleeObj(call); o != nil {
+				callee = shortObj(o)
+			} else if sc := staticCallee(call); sc != nil {
+				callee = fnName(sc)
+			}
+			key := fmt.Sprintf("%s|error of %s", fnName(f), callee)
+			refs := ex.Referrers()
+			live := false
+			var cellStore *ssa.Store
+			if refs != nil {
+				for _, r := range *refs {
+					if _, isDbg := r.(*ssa.DebugRef); isDbg {
+						continue
+					}
+					if st, ok := r.(*ssa.Store); ok && st.Val == ssa.Value(ex) {
+						if _, isAlloc := st.Addr.(*ssa.Alloc); isAlloc && len(*refs) == 1 {
+							cellStore = st
+							continue
+						}
+					}
+					live = true
+				}
+			}
+			if live {
+				return
+			}
+			if blankLHS(f, call, ex.Index) {
+				return // `x, _ = f()`: a deliberate discard, the business of ERR-FLOW where claimed
+			}
+			if cellStore == nil {
+				n++
+				c.Flagf(rule, key, p.pos(call.Pos()), "the error returned by %s is assigned to a variable that is never read afterwards (overwritten or dropped before any test): a failure of %s goes unnoticed and its other results are used as if valid", callee, callee)
+				return
+			}
+			// cell form: is there a path from the store to a later store into the same
+			// cell / to a return that reads nothing?
+			cell := cellStore.Addr.(*ssa.Alloc)
+			escapes := false
+			if cell.Referrers() != nil {
+				for _, r := range *cell.Referrers() {
+					switch x := r.(type) {
+					case *ssa.Store:
+						if x.Addr != ssa.Value(cell) {
+							escapes = true
+						}
+					case *ssa.UnOp, *ssa.DebugRef:
+					default:
+						escapes = true // captured by a closure, address passed on
+					}
+				}
+			}
+			if escapes {
+				return
+			}
+			reads := func(j ssa.Instruction) bool {
+				u, ok := j.(*ssa.UnOp)
+				return ok && u.Op == token.MUL && u.X == ssa.Value(cell)
+			}
+			overwrite := func(j ssa.Instruction) bool {
+				st, ok := j.(*ssa.Store)
+				return ok && st.Addr == ssa.Value(cell) && st != cellStore
+			}
+			if w, bad := reachAvoiding(cellStore, overwrite, reads); bad {
+				n++
+				c.Flagf(rule, key, p.pos(call.Pos()), "the error returned by %s is overwritten at %s on a path that never reads it: a failure of %s goes unnoticed", callee, p.pos(w.Pos()), callee)
+			}
+		})
+	}
+	return n
+}
+
+// blankLHS: in the assignment whose right-hand side is this call, the idx-th
+// left-hand side is the blank identifier (or the call is not the sole
+// right-hand side of an assignment/definition at all).
+func blankLHS(f *ssa.Function, call *ssa.Call, idx int) bool {
+	syn := f.Syntax()
+	if syn == nil {
+		return true
+	}
+	found, blank := false, false
+	ast.Inspect(syn, func(n ast.Node) bool {
+		if found || n == nil {
+			return false
+		}
+		check := func(lhs []ast.Expr, rhs []ast.Expr) {
+			if len(rhs) != 1 || idx >= len(lhs) {
+				return
+			}
+			ce, ok := ast.Unparen(rhs[0]).(*ast.CallExpr)
+			if !ok || ce.Lparen != call.Pos() {
+				return
+			}
+			found = true
+			if id, ok := lhs[idx].(*ast.Ident); ok && id.Name == "_" {
+				blank = true
+			}
+		}
+		switch x := n.(type) {
+		case *ast.AssignStmt:
+			check(x.Lhs, x.Rhs)
+		case *ast.ValueSpec:
+			var lhs []ast.Expr
+			for _, id := range x.Names {
+				lhs = append(lhs, id)
+			}
+			check(lhs, x.Values)
+		}
+		return true
+	})
+	return !found || blank
 }
